@@ -392,8 +392,10 @@ def registry(ctx, prog, cipher):
                 ctx.undecided('C07-D1', f'{key}::expected key', f'{kf.name} is not `key_schedule(key)[k]` of {cmod}', kf.where())
             else:
                 want_idx = 0 if tagp == 'plaintext_tag' else -1
+                if cipher == 'des' and idx == 15:
+                    idx = -1        # DES always has 16 rounds
                 ctx.check(idx == want_idx, 'C07-D1', f'{key}::expected key', f'{cname} reads the {tagp[:-4]} but its expected key is round key [{idx}] of the schedule; the key word acting '
-                          f'on that side is round key [{want_idx}]', f'{tagp[:-4]} side <-> round key [{idx}] ({kf.name})', where, key_function=kf.name)
+                          f'on that side is round key [{want_idx}]' + (' (a fixed positive index is the last round key for one key size only)' if want_idx == -1 and idx > 0 else ''), f'{tagp[:-4]} side <-> round key [{idx}] ({kf.name})', where, key_function=kf.name)
             facts.setdefault('keyfuncs', {})[kf.key] = kf
         # compute function term
         r = prog.resolve(new.mod, compute) if isinstance(compute, (ast.Name, ast.Attribute)) else None
@@ -438,22 +440,28 @@ def registry(ctx, prog, cipher):
 
 
 def key_round(prog, kf, cmod):
-    """k if kf is `return <cmod>.key_schedule(<its parameter>)[k]`"""
-    body = [s for s in kf.node.body if not (isinstance(s, ast.Expr) and isinstance(s.value, ast.Constant))]
-    if len(body) != 1 or not isinstance(body[0], ast.Return):
+    """k if kf(key) evaluates (configuration partial evaluation, schedule opaque) to <cmod>.key_schedule(key)[k]"""
+    from .. import confinterp as cf
+    ks = prog.func(cmod, 'key_schedule')
+    if ks is None or len(kf.params) != 1:
         return None
-    e = body[0].value
-    if not (isinstance(e, ast.Subscript) and isinstance(e.value, ast.Call)):
+    it = cf.Interp(prog)
+    it.opaque_funcs = {ks.key}
+    try:
+        r = it.call(kf, kwargs={kf.params[0]: cf.Sym('key')})
+    except (cf.Unknown, cf.Raised):
         return None
-    k = const_value(e.slice)
-    c = e.value
-    d = prog.dotted(kf.mod, c.func)
-    if d != f'{cmod}.key_schedule' or not isinstance(k, int):
+    if not (isinstance(r, cf.Sym) and r.term and r.term[0] == 'index'):
         return None
-    args = [norm(a) for a in c.args] + [norm(x.value) for x in c.keywords]
-    if args != kf.params[:1]:
+    base, k = r.term[1], r.term[2]
+    if not (isinstance(base, cf.Sym) and base.term and base.term[0] == 'call' and base.term[1] == ks.name):
         return None
-    return k
+    args = list(base.term[2]) + [v for _, v in base.term[3]]
+    if len(args) != 1 or not (isinstance(args[0], cf.Sym) and args[0].name == 'key'):
+        return None
+    if not isinstance(k, int) or isinstance(k, bool):
+        return None
+    return int(k)
 
 
 # ----------------------------------------------------------------------------------------------------- D2
